@@ -24,7 +24,8 @@ type Clause struct {
 	kind string // requires, ensures, comparator, assume
 	expr *Expr
 	tags []string
-	name string // optional label: ensures name: expr
+	name string // optional label: ensures name: expr (for a loop invariant the label names its group)
+	using []string // ensures: the invariant groups this clause needs (`[tags] using a,b`); invariants: groups needed besides its own
 	src  string
 	line int
 	ord  int // 1-based ordinal among the ensures clauses of the contract
@@ -380,6 +381,23 @@ func (p *parser) postfix(e *Expr) *Expr {
 
 // ---------------------------------------------------------------- file parser
 
+// splitUsing strips a trailing `using a,b` (the loop-invariant groups a clause depends on).
+func splitUsing(s string) (string, []string) {
+	t := strings.TrimSpace(s)
+	if j := strings.Index(t, " //"); j >= 0 {
+		t = strings.TrimSpace(t[:j])
+	}
+	i := strings.LastIndex(t, " using ")
+	if i < 0 {
+		return s, nil
+	}
+	names := strings.TrimSpace(t[i+7:])
+	if names == "" || strings.ContainsAny(names, " ()[]=<>&|!") {
+		return s, nil
+	}
+	return strings.TrimSpace(t[:i]), strings.Split(names, ",")
+}
+
 func splitTags(s string) (string, []string) {
 	s = strings.TrimSpace(s)
 	// strip trailing // comment
@@ -444,6 +462,7 @@ func parseContractFile(pkg, path, src string) (*ContractFile, error) {
 			if cur == nil {
 				return nil, fail(fmt.Errorf("clause outside func"))
 			}
+			rest, using := splitUsing(rest)
 			body, tags := splitTags(rest)
 			name := ""
 			// optional label `name: expr` (label is an identifier possibly with - / digits)
@@ -454,7 +473,7 @@ func parseContractFile(pkg, path, src string) (*ContractFile, error) {
 			if err != nil {
 				return nil, fail(err)
 			}
-			ncl := &Clause{kind: word, expr: ex, tags: tags, name: name, src: body, line: lineNos[i]}
+			ncl := &Clause{kind: word, expr: ex, tags: tags, name: name, src: body, line: lineNos[i], using: using}
 			if word == "ensures" {
 				for _, c := range cur.clauses {
 					if c.kind == "ensures" {
@@ -511,12 +530,17 @@ func parseContractFile(pkg, path, src string) (*ContractFile, error) {
 			case "unroll":
 				ls.unroll, _ = strconv.Atoi(f[2])
 			case "invariant":
-				body, tags := splitTags(strings.TrimSpace(strings.TrimPrefix(strings.TrimSpace(strings.TrimPrefix(rest, f[0])), "invariant")))
+				irest, using := splitUsing(strings.TrimSpace(strings.TrimPrefix(strings.TrimSpace(strings.TrimPrefix(rest, f[0])), "invariant")))
+				body, tags := splitTags(irest)
+				group := ""
+				if j := strings.Index(body, ": "); j > 0 && isLabel(body[:j]) && !strings.ContainsAny(body[:j], " (") {
+					group, body = body[:j], strings.TrimSpace(body[j+2:])
+				}
 				ex, err := parseExpr(body)
 				if err != nil {
 					return nil, fail(err)
 				}
-				ls.invariant = append(ls.invariant, &Clause{kind: "invariant", expr: ex, tags: tags, src: body, line: lineNos[i]})
+				ls.invariant = append(ls.invariant, &Clause{kind: "invariant", expr: ex, tags: tags, src: body, line: lineNos[i], name: group, using: using})
 			}
 		case "trusted":
 			if cur != nil {
